@@ -1,7 +1,10 @@
-"""C48 — pending changes survive the application dropping its references: InstanceState._modified_event under proof (a state
-attached to a session and marked modified holds a strong reference to its object on every exit, including the autobegin
-raising), histories with dropped references + gc on SQLite (checks/C48_explore.py) as the bounded complement."""
+"""C48 — pending changes survive the application dropping its references: every writer of `_strong_obj` / `modified` in
+orm/state.py and orm/session.py under proof -- _modified_event (a state attached to a session and marked modified holds a strong
+reference to its object on every exit, including the autobegin raising), _expire_attributes / _commit (neither field in their
+frame), _detach / _detach_states / _commit_all_states / _expire (released only together with the flag or the attachment),
+Session._after_attach (a modified object gets its strong reference when attached); histories with dropped references + gc on SQLite (checks/C48_explore.py) as the bounded complement."""
 import contracts.state_modified  # noqa: F401
+import contracts.state_strong  # noqa: F401
 from vlib.wrap import run_proof_and_explore
 from checks import C48_explore
 
@@ -13,5 +16,7 @@ def run(run, tier, seed, args):
     run_proof_and_explore(run, "C48", C48_explore, tier, seed, args, [
         "quick tier proves the paths with attr is None (21 paths); the thorough tier proves all 317 paths including the committed_state capture (first write wins)",
         "state.obj (weak reference) and state._instance_dict are pure callables during the call; Session._autobegin_t is an abstract callee that may raise",
-        "_commit / _commit_all (release of the strong reference) and the identity map's weak dictionary are in the bounded complement; CPython refcount/GC semantics assumed",
+        "the identity map's weak dictionary and the flush itself are in the bounded complement; CPython refcount/GC semantics assumed",
+        "state.__dict__.get('_pending_mutations') is modelled as a may-be-None field; event hooks (dispatch.*) and _invalidate_collection are no-ops on the modelled state; calls taking comprehensions (expired_attributes.update, _last_known_values.update) clobber the contents of their receiver",
+        "InstanceState._expire (134 paths) is verified in the thorough tier only",
     ])
